@@ -4,7 +4,7 @@
    for every program both models return the same outcome list. *)
 From Coq Require Import List Arith ZArith Bool Permutation.
 From IPC Require Import K KProofs Prog Ideal Unix IdealProofs RefineProofs.
-From IPC Require K Prog Ideal Api ApiProofs ApiInv.
+From IPC Require K Prog Ideal Api ApiProofs ApiInv ErrMap ErrMapProofs.
 Import ListNotations.
 
 (* the invariant holds in every reachable state (any history of create / clone / send-with-embedded-handles /
@@ -71,3 +71,16 @@ Theorem C03_api_receiver_live : forall ops h o c,
 Proof. exact api_receiver_live. Qed.
 Print Assumptions C03_api_receiver_live.
 End ApiLevel.
+
+(* ---- what the public calls report: the conversions of the back end's error are GENERATED from the source (gen/Params); for every
+   error value the back end can produce, 'disconnected' is reported exactly for the closed channel - by the blocking receive and by
+   the non-blocking / timed ones ---- *)
+Module Reported.
+Import ErrMap ErrMapProofs.
+Theorem C03_recv_disconnected_iff_closed : forall e, class_recv e = 1%Z <-> e = UClosed.
+Proof. exact recv_disconnected_iff_closed. Qed.
+Print Assumptions C03_recv_disconnected_iff_closed.
+Theorem C03_try_recv_disconnected_iff_closed : forall e, class_try e = 1%Z <-> e = UClosed.
+Proof. exact try_disconnected_iff_closed. Qed.
+Print Assumptions C03_try_recv_disconnected_iff_closed.
+End Reported.
